@@ -1,5 +1,6 @@
 import NibabelModel.Model.C20
 import NibabelModel.Generated.C20Funcs
+import NibabelModel.Model.C20_PyHdr
 import Driver.Util
 /-! Line-protocol driver for C20: `C20 <op> <args...>` -> one observable line.
 
@@ -16,6 +17,13 @@ import Driver.Util
   get_data_scaling on both header objects and by get_volume_labels; header copy); `pslope`/`pinter` are
   the proxy's own scaling arrays.
   `C20 isfull <smax> <slices>`   `vol_is_full`
+  `C20 chain <ops> <strict 0|1> <permit 0|1> <dv|fp> <cfg> <records>`   load, hand the header on through
+       <ops> (letters c = copy(), f = from_header, i = PARRECImage(.., header=h).header), observe through the
+       resulting header and a NEW proxy built on it (`loadChain`); same output as `load`
+  `C20 genm vol_is_full <smax> <smin> <slices>`   the TRANSLATED `vol_is_full` (Generated/C20Methods.lean)
+  `C20 genm <m> <strict 0|1> <cfg> <records>`     the TRANSLATED header method `m` on the header object of
+       Model/C20_PyHdr: m ∈ n_slices | n_vols | shape | lax | keys | idx | labels | def:<field, `+` for space>
+       (canonical value text of Driver/Util.showV)
 
   cfg     = `ver,diffusion,maxSlices,maxEchoes,maxDynamics,maxDiffValues,maxGradOrient` (ver ∈ 40,41,42)
   records = `;`-separated, each `slice,echo,dyn,phase,itype,seq,bval,grad,label,ri,rs,ss,payload`
@@ -108,6 +116,17 @@ def runLoad (orig : Bool) (st pe sc cfg recs : String) : String :=
 def handle : List String → String
   | ["load", st, pe, sc, cfg, recs] => runLoad false st pe sc cfg recs
   | ["loadorig", st, pe, sc, cfg, recs] => runLoad true st pe sc cfg recs
+  | ["chain", ops, st, pe, sc, cfg, recs] =>
+      let hops : Option (List HOp) := ops.toList.mapM fun ch =>
+        if ch = 'c' then some HOp.copy else if ch = 'f' then some HOp.fromHeader
+        else if ch = 'i' then some HOp.viaImage else none
+      match hops, parseBool? st, parseBool? pe, parseScaling? sc, parseCfg? cfg, parseRecs? recs with
+      | some hops, some st, some pe, some sc, some cfg, some recs =>
+          if hops.isEmpty || (sc = .fp && recs.any (fun r => r.rs == 0 || r.ss == 0)) then "bad-op"
+          else match loadChain cfg pe st sc recs hops with
+            | .ok o => showOut o
+            | .error e => showErr e
+      | _, _, _, _, _, _ => "bad-op"
   | ["read", st, pe, sc, cfg, recs, xy, sls] => runRead st pe sc cfg recs xy sls
   | ["spec", cfg, recs] =>
       match parseCfg? cfg, parseRecs? recs with
@@ -132,6 +151,25 @@ def handle : List String → String
               | none => "ERR:not-a-list"
           | .error e => "ERR:" ++ reprStr e
       | none => "bad-op"
+  | ["genm", "vol_is_full", smax, smin, sl] =>
+      match smax.toInt?, smin.toInt?, (if sl = "-" then some [] else parseIntList? sl) with
+      | some smax, some smin, some sl =>
+          showM (Nb.Gen.C20M.vol_is_full (NV.ofInts sl) (.int smax) (.int smin))
+      | _, _, _ => "bad-op"
+  | ["genm", m, st, cfg, recs] =>
+      match parseBool? st, parseCfg? cfg, parseRecs? recs with
+      | some st, some cfg, some recs =>
+          let h : PyHdr.H := { cfg := cfg, recs := recs, strict := st }
+          if m = "n_slices" then showM h.nSlices
+          else if m = "n_vols" then showM h.nVols
+          else if m = "shape" then showM h.dataShape
+          else if m = "lax" then showM h.laxOrder
+          else if m = "keys" then showM h.strictKeys
+          else if m = "idx" then showM h.sortedIndices
+          else if m = "labels" then showM h.volumeLabels
+          else if m.startsWith "def:" then showM (h.getDef (.str ((m.drop 4).toString.replace "+" " ")))
+          else "bad-op"
+      | _, _, _ => "bad-op"
   | ["isfull", smax, sl] =>
       match smax.toInt?, parseIntList? sl with
       | some smax, some sl =>
